@@ -1,6 +1,7 @@
 # -*- coding: utf-8 -*-
 """C04 -- execution yields the specified result for every valid operation."""
 import copy
+import gc
 import json
 import random
 
@@ -99,6 +100,10 @@ def _observe(fn):
         return {"exc": "Boom"}
     except Exception as e:  # noqa
         return {"exc": type(e).__name__, "msg": str(e)[:160]}
+    if res.data is not None and not isinstance(res.data, dict):
+        # GraphQLResult.data left unset: the pipeline stopped before execution (validation errors on a
+        # document that validated when it was generated)
+        return {"exc": "NoData", "msg": "; ".join(str(e) for e in res.errors)[:200]}
     if _size(res.data, 60000) >= 60000:
         # far larger than any generated case (generation keeps responses under 20000 nodes): not serialised
         return {"exc": "ResponseTooLarge", "msg": "response has more than 60000 nodes"}
@@ -144,6 +149,8 @@ def _request(schema, dispatch, desc, req, doc, executor, rng=None, allow_crash=F
 
 
 def run_impl(case):
+    if case.get("kind") == "stream":
+        return run_stream(case)
     desc = case["schema"]
     main = case["request"]
     obss = []
@@ -197,21 +204,123 @@ def _cobs(o):
     return "(ObsResult %s %s)" % (ser.cpv(o["data"]), ser.clist(o["errors"], _cerror))
 
 
-def _cinput(case, coerced):
-    r = case["request"]
+def _cinput(desc, r, coerced):
     doc = parse(r["text"])
     return "(C04In %s %s %s %s %s %s %s)" % (
-        G.schema_to_coq(case["schema"]), ser.cdoc(doc), ser.copt(r["opname"], ser.cstr),
+        G.schema_to_coq(desc), ser.cdoc(doc), ser.copt(r["opname"], ser.cstr),
         ser.cvars(coerced), ser.cpv(r["root"]), G.table_to_coq(r["world"]),
-        G.tyres_to_coq(case["schema"]))
+        G.tyres_to_coq(desc))
 
 
 def to_coq(case, obs):
-    return "(%s, %s)" % (_cinput(case, obs["coerced"]), ser.clist(obs["obs"], _cobs))
+    if case.get("kind") == "stream":
+        return ser.clist(list(zip(case["distinct"], obs["stream"])), lambda ro: "(%s, %s)" % (
+            _cinput(case["schema"], ro[0], ro[1]["coerced"]), ser.clist(ro[1]["obs"], _cobs)))
+    return "[(%s, %s)]" % (_cinput(case["schema"], case["request"], obs["coerced"]),
+                           ser.clist(obs["obs"], _cobs))
 
 
 def show_expr(case, obs):
-    return "model_C04 %s" % _cinput(case, obs["coerced"])
+    if case.get("kind") == "stream":
+        return "map (fun c => model_C04 (fst c)) %s" % to_coq(case, obs)
+    return "model_C04 %s" % _cinput(case["schema"], case["request"], obs["coerced"])
+
+
+# ---------------------------------------------------------------- request streams on one Schema
+# Caches that outlive a request (Schema._literal_types_cache, _possible_types) are exercised by one
+# long-lived Schema object serving a few hundred *text* requests (parsed per request, documents dropped,
+# gc.collect() now and then) that are pairwise same-shaped -- same source offsets -- and differ only in
+# type names of equal length (type conditions, fragment types, variable types).
+_F = lambda name, t, args=(), resolver=False: {  # noqa: E731
+    "name": name, "pyname": name, "type": t, "args": list(args), "resolver": resolver}
+_PET_FIELDS = [_F("name", "String"), _F("num", "Int"), _F("tag", "ID")]
+STREAM_SCHEMA = {"types": [
+    {"kind": "enum", "name": "Hue", "values": [["RED", 1], ["TAN", "t"]]},
+    {"kind": "interface", "name": "Pet", "fields": _PET_FIELDS[:2], "resolve_key": None},
+    {"kind": "object", "name": "Cat", "fields": _PET_FIELDS, "interfaces": ["Pet"]},
+    {"kind": "object", "name": "Dog", "fields": _PET_FIELDS, "interfaces": ["Pet"]},
+    {"kind": "object", "name": "Cow", "fields": _PET_FIELDS, "interfaces": ["Pet"]},
+    {"kind": "union", "name": "Any", "types": ["Cat", "Dog", "Cow"], "resolve_key": None},
+    {"kind": "object", "name": "Query", "interfaces": [], "fields": [
+        _F("pets", ["list", "Pet"]), _F("anys", ["list", "Any"]),
+        _F("cnt", "Int", [{"name": "a", "pyname": "a", "type": "Int", "default": None}], True),
+        _F("hue", "Hue", [{"name": "a", "pyname": "a", "type": "Hue", "default": None}], True)]},
+], "query": "Query", "mutation": None, "via": "code"}
+_FAMILY = ["Cat", "Dog", "Cow"]
+_ABSTRACT = ["Pet", "Any"]
+_STREAM_TEMPLATES = [
+    "{ pets { __typename ... on %(A)s { tag } name } anys { ... on %(B)s { num } ... on %(C)s { t: __typename } } }",
+    "{ anys { ...F ...G } pets { ...G } } fragment F on %(A)s { tag name } fragment G on %(B)s { num t: __typename }",
+    "{ pets { ... on %(P)s { n: __typename } ... on %(A)s { ... on %(Q)s { t: __typename } tag } } anys { ... on %(Q)s { ... on %(C)s { num } } } }",
+    "query Q($v: %(X)s) { r: %(Y)s(a: $v) anys { ... on %(A)s { tag } } }",
+]
+
+
+_STREAM_CHECK_SCHEMA = []
+
+
+def gen_stream_case(rng, n_requests):
+    if not _STREAM_CHECK_SCHEMA:
+        _STREAM_CHECK_SCHEMA.append(G.build_schema(STREAM_SCHEMA, G.Dispatch()))
+    pets = lambda: [  # noqa: E731
+        None if rng.random() < 0.1 else
+        {"__typename__": rng.choice(_FAMILY), "name": rng.choice(["rex", "tom", ""]),
+         "num": rng.randint(0, 9), "tag": rng.choice(["t1", 7])} for _ in range(rng.randint(2, 4))]
+    root = {"pets": pets(), "anys": pets()}
+    distinct = []
+    for tpl in rng.sample(_STREAM_TEMPLATES, rng.randint(2, len(_STREAM_TEMPLATES))):
+        seen = set()
+        for _ in range(rng.randint(2, 4)):
+            xy = rng.choice([("Int", "cnt", 5), ("Hue", "hue", "TAN")])
+            sub = {"A": rng.choice(_FAMILY), "B": rng.choice(_FAMILY), "C": rng.choice(_FAMILY),
+                   "P": rng.choice(_ABSTRACT), "Q": rng.choice(_ABSTRACT), "X": xy[0], "Y": xy[1]}
+            text = tpl % sub
+            if text in seen:
+                continue
+            seen.add(text)
+            uses_var = "$v" in text
+            if not validate_ast(_STREAM_CHECK_SCHEMA[0], parse(text)):
+                _STATS["invalid_discarded"] += 1
+                continue
+            distinct.append({"text": text, "variables": {"v": xy[2]} if uses_var else {},
+                             "opname": None, "root": root,
+                             "world": [[["r"], ["echo", "a"]]] if uses_var else [],
+                             "features": ["stream"]})
+    order = [rng.randrange(len(distinct)) for _ in range(n_requests)]
+    return {"kind": "stream", "schema": STREAM_SCHEMA, "distinct": distinct, "order": order,
+            "gc_every": rng.choice([0, 13, 29])}
+
+
+def run_stream(case):
+    desc = case["schema"]
+    fresh, coerced = [], []
+    for r in case["distinct"]:
+        dispatch = G.Dispatch()
+        schema = G.build_schema(desc, dispatch)
+        doc = parse(r["text"])
+        coerced.append(coerce_variable_values(schema, get_operation(doc, r["opname"]),
+                                              copy.deepcopy(r["variables"])))
+        obs, _ = _request(schema, dispatch, desc, r, r["text"], "blocking", validate=True)
+        fresh.append(obs)
+    # the long-lived Schema object
+    dispatch = G.Dispatch()
+    schema = G.build_schema(desc, dispatch)
+    seen = [[o] for o in fresh]
+    first_bad, deviations = None, 0
+    for j, idx in enumerate(case["order"]):
+        r = case["distinct"][idx]
+        # text in, document parsed inside the entry point and dropped afterwards
+        obs, _ = _request(schema, dispatch, desc, r, r["text"], "blocking", validate=True)
+        if obs != fresh[idx]:
+            deviations += 1
+            if first_bad is None:
+                first_bad = j
+            if obs not in seen[idx] and len(seen[idx]) < 4:
+                seen[idx].append(obs)
+        if case.get("gc_every") and j % case["gc_every"] == 0:
+            gc.collect()
+    return {"stream": [{"coerced": c, "obs": s_} for c, s_ in zip(coerced, seen)],
+            "first_bad": first_bad, "deviations": deviations}
 
 
 # ---------------------------------------------------------------- generation
@@ -302,7 +411,11 @@ def _rerecord(rng, desc, req):
 
 def generate(rng, tier):
     n = 300 if tier == "quick" else 3000
-    return [gen_case(rng) for _ in range(n)]
+    cases = [gen_case(rng) for _ in range(n)]
+    # streams of same-shaped text requests on one long-lived Schema (300 requests quick, 3000 thorough)
+    for _ in range(2 if tier == "quick" else 10):
+        cases.append(gen_stream_case(rng, 150 if tier == "quick" else 300))
+    return cases
 
 
 def _load_corpus():
@@ -327,6 +440,8 @@ def _has_nested(v):
 
 
 def nontrivial(case, obs):
+    if case.get("kind") == "stream":
+        return True
     o = obs["obs"][0]
     if "data" not in o or not _has_nested(o["data"]):
         return False
@@ -335,11 +450,18 @@ def nontrivial(case, obs):
 
 
 def canonical(case):
+    if case.get("kind") == "stream":
+        return json.dumps([[r["text"] for r in case["distinct"]], case["order"], case["distinct"][0]["root"]],
+                          sort_keys=True, default=str)
     r = case["request"]
     return json.dumps([case["schema"], r["text"], r["variables"], r["world"], r["root"]], sort_keys=True, default=str)
 
 
 def classify(case, obs):
+    if case.get("kind") == "stream":
+        if obs.get("first_bad") is not None:
+            return "result-independent-of-earlier-requests", None
+        return "result-equals-specified-result", None
     o = obs["obs"]
     if o[0] != o[1]:
         return "blocking-and-generic-executor-agree", None
@@ -350,6 +472,12 @@ def classify(case, obs):
 
 def direct_checks(case, obs):
     out = []
+    if case.get("kind") == "stream":
+        if obs.get("first_bad") is not None:
+            out.append(("result-independent-of-earlier-requests: request #%d of the stream answers differently "
+                        "than on a fresh Schema (%d of %d requests differ)"
+                        % (obs["first_bad"], obs["deviations"], len(case["order"])), None))
+        return out
     o = obs["obs"]
     for x in o:
         if "errors" in x:
@@ -362,8 +490,18 @@ def direct_checks(case, obs):
 
 
 def shrink(case, is_bad):
-    """drop history entries, then world entries, while the disagreement persists"""
+    """single requests: drop the history; streams: keep the prefix up to the first deviating request"""
     cur = case
+    if case.get("kind") == "stream":
+        try:
+            fb = run_stream(case).get("first_bad")
+        except Exception:  # noqa
+            fb = None
+        if fb is not None:
+            cand = dict(case, order=case["order"][:fb + 1])
+            if run_stream(cand).get("first_bad") is not None:
+                cur = cand
+        return cur
     if cur["history"]:
         cand = dict(cur, history=[])
         if is_bad(cand):
@@ -378,7 +516,14 @@ def extra_evidence(cases, obss):
     with_err = 0
     hist = 0
     via = {}
+    streams = {"streams": 0, "requests": 0, "distinct_requests": 0, "deviating_requests": 0}
     for c, o in zip(cases, obss):
+        if c.get("kind") == "stream":
+            streams["streams"] += 1
+            streams["requests"] += len(c["order"])
+            streams["distinct_requests"] += len(c["distinct"])
+            streams["deviating_requests"] += o.get("deviations", 0)
+            continue
         for f in c["request"].get("features", []):
             feats[f] = feats.get(f, 0) + 1
         via[c["schema"]["via"]] = via.get(c["schema"]["via"], 0) + 1
@@ -392,4 +537,5 @@ def extra_evidence(cases, obss):
     return {"distribution": {
         "operation_features": feats, "error_kinds": kinds, "cases_with_errors": with_err,
         "cases_crashing": crashes, "cases_with_history": hist, "schema_built_via": via,
+        "same_schema_text_streams": streams,
         "operations_generated": _STATS["generated"], "invalid_discarded": _STATS["invalid_discarded"]}}
